@@ -19,8 +19,8 @@ NSHARDS = 16
 
 
 def plan(tier, seed):
-    n = 4000 if tier == "quick" else 150000
-    return [{"name": "s%d" % i, "seed": seed, "shard": i, "n_ops": n, "n_programs": 8 if tier == "quick" else 200}
+    n = 40000 if tier == "quick" else 1200000
+    return [{"name": "s%d" % i, "seed": seed, "shard": i, "n_ops": n, "n_programs": 40 if tier == "quick" else 1000}
             for i in range(NSHARDS)]
 
 
@@ -81,14 +81,14 @@ def tree_workload(rng, n_ops, mon):
                             snap, want = mon.snap(old), mon.den(old) + mon.den(b)
                             new = old
                             new += b
-                            mag = 1.0 + abs(want)
+                            mag = 1.0 + abs(mon.den(old)) + abs(mon.den(b))      # cancellation: rounding scales with the operands
                         else:
                             old = rng.choice(pts)
                             b = rng.choice(pts)
                             snap, want = mon.snap(old), mon.den(old) - mon.den(b)
                             new = old
                             new -= b
-                            mag = 1.0 + float(abs(want).max())
+                            mag = 1.0 + float(abs(mon.den(old)).max()) + float(abs(mon.den(b)).max())
                         mon.count += 1
                         mon.by_op["augmented_assignment"] = mon.by_op.get("augmented_assignment", 0) + 1
                         if not mon.same_snap(snap, mon.snap(old)) or new is old:
@@ -162,13 +162,14 @@ def run_shard(spec):
     from pv.algebra import AlgebraMonitor
     from pv import gen, driver
     t0 = time.time()
+    if "replay" in spec:
+        w = spec["replay"]
+        spec = dict(spec, seed=w.get("seed", 0), shard=w.get("shard", 0), n_ops=w.get("n_ops", 4000),
+                    n_programs=w.get("n_programs", 8), name=w.get("shard_name", "s%d" % w.get("shard", 0)))
     rng = random.Random("c06/%d/%d" % (spec["seed"], spec["shard"]))
     mon = AlgebraMonitor(seed=spec["seed"] * 1000 + spec["shard"]).install()
     viol = []
     counters = {}
-    if "replay" in spec:
-        w = spec["replay"]
-        rng = random.Random(w.get("rng", "c06/0/0"))
     tree_workload(rng, spec.get("n_ops", 4000), mon)
     counters["tree_ops_driven"] = spec.get("n_ops", 4000)
     # operator applications made while building realistic models
@@ -192,6 +193,8 @@ def run_shard(spec):
     for v in mon.violations:
         v = dict(v)
         v["rng"] = "c06/%d/%d" % (spec["seed"], spec["shard"])
+        v.update({"seed": spec["seed"], "shard": spec["shard"], "n_ops": spec.get("n_ops", 4000),
+                  "n_programs": spec.get("n_programs", 8), "shard_name": spec["name"]})
         viol.append(v)
     by_op = dict(mon.by_op)
     return {"counters": counters, "signatures": sorted(repr(s) for s in mon.signatures),
